@@ -93,8 +93,11 @@ func genCase(r *rand.Rand, quick bool) caseCfg {
 	c.BufSize = []int{16, 64, 4096, 64 * 1024}[r.Intn(4)]
 	c.NCmds = 20 + r.Intn(50)
 	if !quick && r.Intn(25) == 0 {
+		// multi-MiB arguments: fed in bursts (byte dribbling megabytes only burns the time budget)
 		c.BigArgs = true
 		c.NCmds = 15
+		c.PlanStyle = []int{0, 3}[r.Intn(2)]
+		c.BufSize = 64 * 1024
 	}
 	c.EndByEOF = r.Intn(4) == 0
 	return c
